@@ -250,6 +250,12 @@ func (m *UDPMuxDefault) removeConns(ufrag string, only *udpMuxedConn) {
 		return
 	}
 
+	// Stop the removed connections: a handle that outlives the removal must not
+	// be able to re-create address bindings (and receive traffic) by writing.
+	for _, c := range removedConns {
+		_ = c.Close()
+	}
+
 	verifhook.Yield("mr.r_unmap")
 	m.addressMapMu.Lock()
 	defer m.addressMapMu.Unlock()
@@ -513,6 +519,12 @@ func (m *UDPMuxDefault) registerConnForAddress(conn *udpMuxedConn, addr netip.Ad
 
 	m.addressMapMu.Lock()
 	defer m.addressMapMu.Unlock()
+
+	// A write that started before the connection was removed must not leave a
+	// binding behind: removal closes the connection before it drops its bindings.
+	if conn.isClosed() {
+		return
+	}
 
 	existing, ok := m.addressMap[addr]
 	if ok && existing != conn {
